@@ -125,6 +125,24 @@ def gen_planted_history(rng):
             cands.append(["D"] + inner[:-1] + ["D"])
     rng.shuffle(cands)
     names = [nd["name"] for nd in spec["nodes"]]
+    if len(r) >= 4 and mut == "none":
+        # a route that is feasible in every other respect but visits one customer twice (the way back is made possible: arc y -> x of
+        # time 0, x's window left open), the two visits spelled differently: once by name, once by index
+        x_, y_ = r[1], r[2]
+        arcset = {(a[0], a[1]) for a in spec["arcs"]}
+        if (y_, x_) not in arcset:
+            spec["arcs"].append([y_, x_, "0", "1"])
+        if (x_, "D") not in arcset:
+            spec["arcs"].append([x_, "D", "0", "1"])
+        for nd in spec["nodes"]:
+            if nd["name"] in (x_, "D"):
+                nd["hi"] = "inf"
+            if nd["name"] in (x_, y_):
+                nd["demand"] = "0"
+        ops_first = [["R", ["D", x_, y_, names.index(x_), "D"]], ["R", [0, names.index(x_), y_, x_, 0]]]
+    else:
+        ops_first = []
+    ops += ops_first
     for c in cands[:6]:
         enc = rng.choice(["names", "idx", "mixed"])
         ops.append(["R", [(names.index(x) if enc == "idx" or (enc == "mixed" and rng.random() < 0.5) else x) for x in c]])
@@ -203,8 +221,10 @@ def gen(rng, tier):
                     route.append(nm)
             route.append("D")
             mut = rng.random()
+            repeated = None
             if mut < 0.08 and len(route) > 2:
-                route.insert(rng.randint(1, len(route) - 1), route[rng.randint(1, len(route) - 2)])   # repeat a node
+                repeated = route[rng.randint(1, len(route) - 2)]
+                route.insert(rng.randint(1, len(route) - 1), repeated)                                 # repeat a node
             elif mut < 0.12:
                 route = route[:-1]                                                                     # drop the final depot
             elif mut < 0.15:
@@ -218,6 +238,11 @@ def gen(rng, tier):
             enc = rng.choice(["names", "names", "idx", "mixed"])
             if enc != "names":
                 route = [(names.index(x) if x in names and (enc == "idx" or rng.random() < 0.5) else x) for x in route]
+            if repeated is not None and repeated in names and rng.random() < 0.6:
+                # the two visits of the repeated customer spelled differently: once by name, once by index
+                occ = [i for i, x in enumerate(route) if x == repeated or x == names.index(repeated)]
+                if len(occ) >= 2:
+                    route[occ[0]], route[occ[1]] = repeated, names.index(repeated)
             if rng.random() < 0.05 and len(route) >= 3 and all(isinstance(x, int) for x in route):
                 # a node position below zero is no node (Python's negative indexing would read it as "the k-th node from the end")
                 j = rng.randint(1, len(route) - 2)
